@@ -148,3 +148,62 @@ func literalFamily(r *ev.Run, t *totals) {
 	t.scripts += n
 	r.Add("literal_programs", n)
 }
+
+// Sorting at the edges of the integer range: every list of 2..4 integers from {MinInt64, -2^62, -1, 0, 1, 2^62,
+// MaxInt64} through l.sort() and sorted(l), against Go's sort of the same numbers. Two members that are 2^63 or
+// more apart is where a comparison by subtraction changes sign.
+func sortExtremes(r *ev.Run, t *totals) {
+	vals := []int64{-9223372036854775808, -4611686018427387904, -1, 0, 1, 4611686018427387904, 9223372036854775807}
+	src := func(v int64) string {
+		if v == -9223372036854775808 {
+			return "(-9223372036854775807 - 1)"
+		}
+		return fmt.Sprint(v)
+	}
+	var lists [][]int64
+	var rec func(cur []int64)
+	rec = func(cur []int64) {
+		if len(cur) >= 2 {
+			lists = append(lists, append([]int64{}, cur...))
+		}
+		if len(cur) == 4 {
+			return
+		}
+		for _, v := range vals {
+			rec(append(cur, v))
+		}
+	}
+	rec(nil)
+	bad := make([]*mismatch, len(lists))
+	ev.ParFor(len(lists), func(i int) {
+		l := lists[i]
+		var parts []string
+		for _, v := range l {
+			parts = append(parts, src(v))
+		}
+		lit := "[" + strings.Join(parts, ", ") + "]"
+		want := append([]int64{}, l...)
+		sort.Slice(want, func(a, b int) bool { return want[a] < want[b] })
+		wantText := strings.ReplaceAll(fmt.Sprint(want), " ", ", ")
+		for _, form := range []string{"l := " + lit + "\nl.sort()\nl", "sorted(" + lit + ")", "l := " + lit + "\nsorted(l)\nl.sort()\nsorted(l)"} {
+			res, errText, panicText := evalScript(litGlobals, form, nil)
+			got := errText + panicText
+			if res != nil {
+				got = res.Inspect()
+			}
+			if got != wantText && bad[i] == nil {
+				bad[i] = &mismatch{sig: "C16:sort-at-the-integer-extremes", what: "sorting " + lit + ": " + strings.ReplaceAll(form, "\n", "; "), observed: got, expected: wantText,
+					input: replayInput{Domain: "literal", Op: Op{K: "literal", V: form}, Mode: "script"}}
+			}
+		}
+	})
+	for _, mm := range bad {
+		if mm != nil {
+			r.Report(mm.sig, mm.what, mm.input, mm.observed, mm.expected)
+		}
+	}
+	r.Outcome("sort-extremes|checked")
+	t.validated += 3 * len(lists)
+	t.scripts += 3 * len(lists)
+	r.Add("sort_extreme_lists", len(lists))
+}
